@@ -137,14 +137,16 @@ where
         I: IntoIterator<Item = (S, P)>,
     {
         let mut population_map = population::Map::default();
+        let mut map = IndexMap::new();
 
-        Self(IndexMap::from_iter(iter.into_iter().map(
-            |(sample_name, population_name)| {
-                (
-                    sample_name.into(),
-                    population_map.get_or_insert(population_name.into()),
-                )
-            },
-        )))
+        for (sample_name, population_name) in iter {
+            // A sample listed more than once keeps its first population; in particular, a
+            // repeated sample must not register a population that ends up without samples
+            if let indexmap::map::Entry::Vacant(entry) = map.entry(sample_name.into()) {
+                entry.insert(population_map.get_or_insert(population_name.into()));
+            }
+        }
+
+        Self(map)
     }
 }
